@@ -41,7 +41,9 @@ func InitStream(p *xml.Decoder) (sessionID string, err error) {
 			return sessionID, err
 		case xml.EndElement:
 			// The peer ends the stream instead of (re)opening it: nothing else will come.
-			return sessionID, errors.New("xmpp: stream closed by the peer")
+			if elem.Name.Space == NSStream && elem.Name.Local == "stream" {
+				return sessionID, errors.New("xmpp: stream closed by the peer")
+			}
 		}
 	}
 }
